@@ -18,6 +18,12 @@ from mc.refmodels.editdist import wagner_fischer, best_substring_distance, same
 
 ID = 'C13'
 
+def nabs(x):
+    """abs() for tolerance tests: a NaN counts as an infinite difference (a result that is not a number equals nothing)"""
+    x = abs(x)
+    return float('inf') if x != x else x
+
+
 MANIFEST = dict(
     technique='explicit-state enumeration of all sequence pairs up to renaming (restricted-growth strings), real code vs Wagner-Fischer / brute-force substring oracle',
     text='Bounded exhaustive: every pair of sequences with |s|+|t| <= 7 (quick) / 9 (thorough) up to symbol renaming, in four symbol renderings, plus the full cost cube on short pairs and all 1-3-tuples of a summary pool, is executed on the real functions and compared with an independent full-matrix reference. Optimality is a for-all over alignments, so only enumeration against a reference decides it. Added sub-sweeps: tuples / numpy arrays as inputs (left untouched, second call equal), aggregates of aggregates, and structured pairs of 130-520 symbols. One list object edited in place (same length) between two calls.',
@@ -410,7 +416,7 @@ def check_agg(case, ctx):
                 ctx.violation('aggregation-is-plain-addition', f'{ID}/aggregate-of-aggregates/{"+".join(bad)}',
                               f'aggregate([aggregate(first {k}), aggregate(rest)]) over {case["items"]}: got {gn}, field-wise sum {want}')
                 break
-    if want['ref_len'] > 0 and abs(agg.error_rate - want['errors'] / want['ref_len']) > 1e-12:
+    if want['ref_len'] > 0 and nabs(agg.error_rate - want['errors'] / want['ref_len']) > 1e-12:
         ctx.violation('aggregation-is-plain-addition', f'{ID}/aggregate/error-rate', f'{agg.error_rate}')
 
 
